@@ -13,8 +13,8 @@ import (
 	"github.com/talostrading/sonic/sonicerrors"
 	"github.com/talostrading/sonic/sonicopts"
 
-	"sonicverif/sim"
 	shimnet "sonicverif/shim/net"
+	"sonicverif/sim"
 )
 
 // The object zoo shared by C01, C02, C03 and C14: every kind of asynchronous
@@ -55,88 +55,90 @@ const (
 
 var lOpNames = [...]string{"read", "readall", "write", "writeall", "accept", "readfrom", "writeto"}
 
-func (k lOpKind) isRead() bool { return k == opRead || k == opReadAll || k == opAccept || k == opReadFrom }
+func (k lOpKind) isRead() bool {
+	return k == opRead || k == opReadAll || k == opAccept || k == opReadFrom
+}
 
 type lOp struct {
-	id          int
-	obj         *lObj
-	kind        lOpKind
-	buf         []byte
-	beh         int
-	returned    bool // the Async* call that started it has returned
-	completions int
-	inline      bool
-	err         error
-	n           int
-	startOff    int64 // stream offset at start
-	startDepth  int
-	atLimit     bool // started while the dispatch counter was at its limit
+	id           int
+	obj          *lObj
+	kind         lOpKind
+	buf          []byte
+	beh          int
+	returned     bool // the Async* call that started it has returned
+	completions  int
+	inline       bool
+	err          error
+	n            int
+	startOff     int64 // stream offset at start
+	startDepth   int
+	atLimit      bool // started while the dispatch counter was at its limit
 	movedAtStart int64
-	exempt      bool // object closed by someone before completion: need not complete
-	cancelled   bool // a Cancel covered it: must complete with ErrCancelled
-	conn        sonic.Conn
+	exempt       bool // object closed by someone before completion: need not complete
+	cancelled    bool // a Cancel covered it: must complete with ErrCancelled
+	conn         sonic.Conn
 }
 
 type lObj struct {
-	ix       int
-	kind     lKind
-	fd       sonic.FileDescriptor
-	lis      sonic.Listener
-	pc       sonic.PacketConn
-	peer     *multicast.UDPPeer
-	rawFd    int
-	gen      int
-	closed   bool // Close has returned
-	rd, wr   *lOp
-	end      *sim.TCPEnd // actor end (streams)
-	myEnd    *sim.TCPEnd // sonic's end (independent byte counters)
-	fifo     *sim.Fifo
-	path     string
-	conn     *shimnet.SimConn
-	port     int
-	inOff    int64 // bytes of the peer->sonic stream consumed by completed reads
-	outOff   int64 // bytes of the sonic->peer stream covered by completed writes
-	peerSent int64
-	peerGot  int64
-	inBroken, outBroken bool // fidelity tracking ended (error reported on that direction)
+	ix                           int
+	kind                         lKind
+	fd                           sonic.FileDescriptor
+	lis                          sonic.Listener
+	pc                           sonic.PacketConn
+	peer                         *multicast.UDPPeer
+	rawFd                        int
+	gen                          int
+	closed                       bool // Close has returned
+	rd, wr                       *lOp
+	end                          *sim.TCPEnd // actor end (streams)
+	myEnd                        *sim.TCPEnd // sonic's end (independent byte counters)
+	fifo                         *sim.Fifo
+	path                         string
+	conn                         *shimnet.SimConn
+	port                         int
+	inOff                        int64 // bytes of the peer->sonic stream consumed by completed reads
+	outOff                       int64 // bytes of the sonic->peer stream covered by completed writes
+	peerSent                     int64
+	peerGot                      int64
+	inBroken, outBroken          bool // fidelity tracking ended (error reported on that direction)
 	peerFin, peerClosed, peerRst bool
-	pending  []*sim.TCPEnd // listener: actor clients not yet accepted
-	dgramSeq int
-	everFailed bool
-	fdGone   bool // the descriptor was closed underneath the object
+	pending                      []*sim.TCPEnd // listener: actor clients not yet accepted
+	dgramSeq                     int
+	everFailed                   bool
+	fdGone                       bool // the descriptor was closed underneath the object
 }
 
 type loop struct {
-	c      *Ctx
-	w      *sim.World
-	ioc    *sonic.IO
-	objs   []*lObj
-	ops    []*lOp
-	depth  int
+	c        *Ctx
+	w        *sim.World
+	ioc      *sonic.IO
+	objs     []*lObj
+	ops      []*lOp
+	depth    int
 	maxDepth int
-	quiesce bool
-	cbRuns int // completion callbacks executed (for "poll dispatched something")
+	quiesce  bool
+	cbRuns   int // completion callbacks executed (for "poll dispatched something")
 	// configuration of the owning scenario
-	behaviours func(s *loop, op *lOp) // what a completion handler does
-	checkData  bool                    // C02: verify stream contents
-	onCb       func(op *lOp)
-	streamSeed uint64
-	nextPort   int
+	behaviours         func(s *loop, op *lOp) // what a completion handler does
+	checkData          bool                   // C02: verify stream contents
+	onCb               func(op *lOp)
+	streamSeed         uint64
+	nextPort           int
 	lastPollDispatched bool
-	fifoCap    int // 0: drawn per object
-	ignoreAvoid bool // directed demonstration of an open known finding
+	fifoCap            int  // 0: drawn per object
+	ignoreAvoid        bool // directed demonstration of an open known finding
 }
 
 var (
-	lpInline     = sim.RegStat("probe:loop-op-completed-inline")
-	lpDeferred   = sim.RegStat("probe:loop-op-deferred")
-	lpAtLimit    = sim.RegStat("probe:loop-op-started-at-dispatch-limit")
-	lpCancelled  = sim.RegStat("probe:loop-op-cancelled")
-	lpCrossClose = sim.RegStat("probe:loop-handler-closed-other-object")
+	lpInline      = sim.RegStat("probe:loop-op-completed-inline")
+	lpDeferred    = sim.RegStat("probe:loop-op-deferred")
+	lpAtLimit     = sim.RegStat("probe:loop-op-started-at-dispatch-limit")
+	lpCancelled   = sim.RegStat("probe:loop-op-cancelled")
+	lpCrossClose  = sim.RegStat("probe:loop-handler-closed-other-object")
 	lpCrossCancel = sim.RegStat("probe:loop-handler-cancelled-other-object")
-	lpBoth       = sim.RegStat("probe:loop-read-and-write-in-flight-together")
-	lpErrDone    = sim.RegStat("probe:loop-op-completed-with-error")
-	lpAllMulti   = sim.RegStat("probe:loop-*All-needed-several-wakeups")
+	lpBoth        = sim.RegStat("probe:loop-read-and-write-in-flight-together")
+	lpErrDone     = sim.RegStat("probe:loop-op-completed-with-error")
+	lpAllMulti    = sim.RegStat("probe:loop-*All-needed-several-wakeups")
 )
 
 func newLoop(c *Ctx) *loop {
